@@ -193,8 +193,54 @@ func c12empty(s string) {
 
 // step level: a generated command-step document (tokens in every string position) loaded through
 // CommandStep.UnmarshalJSON, a permutation that is valid, an adjustment, skipped or invalid
+// c12leftover returns an in-scope string of the step which the reference replacement would still change.
+func c12leftover(cs *pipeline.CommandStep, perm map[string]string) string {
+	bad := ""
+	chk := func(s string) {
+		if r, _ := c12ref(perm, s); r != s && bad == "" {
+			bad = s
+		}
+	}
+	var walk func(v any)
+	walk = func(v any) {
+		switch x := v.(type) {
+		case string:
+			chk(x)
+		case []any:
+			for _, e := range x {
+				walk(e)
+			}
+		case []string:
+			for _, e := range x {
+				chk(e)
+			}
+		case map[string]any:
+			for k, e := range x {
+				chk(k)
+				walk(e)
+			}
+		case *ordered.MapSA:
+			x.Range(func(k string, e any) error { chk(k); walk(e); return nil })
+		}
+	}
+	chk(cs.Command)
+	chk(cs.Label)
+	for _, p := range cs.Plugins {
+		chk(p.Source)
+		walk(p.Config)
+	}
+	for _, v := range cs.Env {
+		chk(v)
+	}
+	walk(cs.RemainingFields)
+	return bad
+}
+
 func c12stepCases(rng *sx.Rng, n int) {
-	tok := []string{"{{matrix}}", "{{ matrix.os }}", "{{matrix.arch}}", "{{matrix.nope}}", "{{matrix.}}", "plain", "{{matrix.os}}-{{matrix.arch}}", ""}
+	tok := []string{"plain", "{{matrix.}}", "x y", "", "{ {matrix}}", "$FOO"}
+	tokNamed := []string{"{{ matrix.os }}", "{{matrix.arch}}", "{{matrix.os}}-{{matrix.arch}}", "{{matrix.nope}}"}
+	tokAnon := []string{"{{matrix}}", "{{ matrix }}", "{{matrix.os}}"}
+	_, _ = tokNamed, tokAnon
 	for i := 0; i < n; i++ {
 		g := newDocgen(rng, false)
 		g.strPool = tok
@@ -207,9 +253,12 @@ func c12stepCases(rng *sx.Rng, n int) {
 		var perm map[string]string
 		switch rng.Intn(3) {
 		case 0: // anonymous dimension
+			// plugins written without a config (string form / null config) whose source carries a token
+			d.set("plugins", dList(dStr("tool-{{matrix}}#v1"), dMap(dkv{"other-{{ matrix }}", dNull()}), dMap(dkv{"third#{{matrix}}", dMap(dkv{"k", dStr("{{matrix}}")})})))
 			d.set("matrix", dMap(dkv{"setup", dList(dStr("a"), dStr("{{matrix}}"))}, dkv{"adjustments", dList(dMap(dkv{"with", dStr("extra")}, dkv{"skip", sx.Pick(rng, []*dv{dBool(false), dBool(true), dStr("why")})}))}))
 			perm = map[string]string{"": sx.Pick(rng, []string{"a", "{{matrix}}", "extra", "zzz"})}
 		case 1:
+			d.set("plugins", dList(dStr("tool-{{matrix.os}}#v1"), dMap(dkv{"other-{{matrix.arch}}", dNull()})))
 			d.set("matrix", dMap(dkv{"setup", dMap(dkv{"os", dList(dStr("linux"), dStr("mac"))}, dkv{"arch", dList(dStr("x"), dStr("y"))})},
 				dkv{"adjustments", dList(dMap(dkv{"with", dMap(dkv{"os", dStr("win")}, dkv{"arch", dStr("x")})}))}))
 			perm = map[string]string{"os": sx.Pick(rng, []string{"linux", "mac", "win"}), "arch": sx.Pick(rng, []string{"x", "y"})}
@@ -249,6 +298,20 @@ func c12stepCases(rng *sx.Rng, n int) {
 			if len(perm) == 0 && string(before) != string(after) {
 				oracleFail("C12", "empty-permutation", c, "the empty permutation changed the step")
 				continue
+			}
+			// the property's own words: after a successful call no in-scope string still carries a token of a
+			// dimension the permutation has (values that look like tokens are left out: they legitimately stay)
+			tokenFree := true
+			for _, v := range perm {
+				if strings.Contains(v, "{{") {
+					tokenFree = false
+				}
+			}
+			if len(perm) > 0 && tokenFree {
+				if left := c12leftover(cs, perm); left != "" {
+					oracleFail("C12", "token-left-in-scope", c, "interpolation succeeded but an in-scope string still carries a token: "+left)
+					continue
+				}
 			}
 			stat("C12", "step-ok")
 		} else {
